@@ -32,6 +32,12 @@ def state_case(rnd, removal=None, max_calls=10, family=None, malformed=0.0, isol
         nodes = gen.history_nodes(hist) or [1]
         pre.append(('addnode', 0, rnd.choice(nodes), rnd.randint(1, 4)))
         classes.append('node_attr')
+    if rnd.random() < 0.4:
+        # falsy node id: relabel node 1 as 0
+        z = lambda x: 0 if x == 1 else x
+        hist = [(o[0], o[1], z(o[2]), z(o[3])) + tuple(o[4:]) if o[0] == 'add' else o for o in hist]
+        pre = [(o[0], o[1], z(o[2])) + tuple(o[3:]) for o in pre]
+        classes.append('node_id_zero')
     if rnd.random() < 0.15:
         from props.base import shift_op
         d = -rnd.randint(4, 15)
@@ -78,11 +84,15 @@ def query_probes(r, ns, ts, directed, light=False):
         for kind in (('degree', 'in_degree', 'out_degree') if directed else ('degree',)):
             ps.append(('deg', r, kind, t, None))
             ps.append(('deg', r, kind, t, sub))
+            ps.append(('deg', r, kind, t, []))              # empty nbunch: nothing
             if ns:
                 ps.append(('deg', r, kind, t, [ns[-1]]))
+                ps.append(('deg', r, kind, t, ('one', ns[0])))   # scalar nbunch (node ids may be falsy: 0)
+                ps.append(('deg', r, kind, t, ('one', ns[-1])))
         for kind in (('interactions', 'in_interactions', 'out_interactions') if directed else ('interactions',)):
             ps.append(('inter', r, kind, t, None))
             ps.append(('inter', r, kind, t, sub))
+            ps.append(('inter', r, kind, t, []))
             if ns:
                 ps.append(('inter', r, kind, t, [ns[-1]]))
         ps += [('nodes', r, t), ('nnodes', r, t), ('nint', r, None, t), ('size', r, t), ('density', r, t)]
